@@ -22,6 +22,62 @@ type c07History struct {
 	V1    func() (*Ty, []string) // type and derive plugins called in v1
 	V2    func() (*Ty, []string)
 	Trunc int // >0: truncate v1's derived.gen.go to this fraction (percent) before the v2 run
+	// raw histories: hand-written user sources (x.go) instead of a generated type + plugin list; Harness is appended
+	// to the v2 package (solver harnesses over the regenerated functions)
+	Raw1, Raw2, Harness string
+	HarnessNames       []string
+}
+
+// c07RawFiles builds the files of one version of a raw history.
+func c07RawFiles(pkg, body, harness string, names []string) map[string]string {
+	files := map[string]string{"x.go": "package " + pkg + "\n\n" + body}
+	if harness != "" {
+		files["harness.go"] = fmt.Sprintf("package %s\n\nimport \"%s/vxlib/vx\"\n\nvar _ = vx.Cover\n\n%s", pkg, modPath, harness)
+		var rt strings.Builder
+		fmt.Fprintf(&rt, "package %s\n\nimport (\n\t\"testing\"\n\n\t\"%s/vxlib/vx\"\n)\n\nfunc TestVXReplay(t *testing.T) {\n\tvx.Replay(t, map[string]func(){\n", pkg, modPath)
+		for _, n := range names {
+			fmt.Fprintf(&rt, "\t\t%q: %s,\n", n, n)
+		}
+		rt.WriteString("\t})\n}\n")
+		files["zz_replay_test.go"] = rt.String()
+	}
+	return files
+}
+
+const c07SortHarness = `func VX_C07_C0raw_sorted() {
+	m := vx.NondetOpt[map[KEY]int]("m", "map=2")
+	ks := use(m)
+	vx.Assert(len(ks) == len(m), "one key per entry")
+	for i := 0; i+1 < len(ks); i++ {
+		vx.Assert(ks[i] < ks[i+1], "keys ascending and distinct")
+	}
+	for _, k := range ks {
+		_, ok := m[k]
+		vx.Assert(ok, "every returned key is a key of the map")
+	}
+}
+`
+
+func c07RawHistories(tier string) []c07History {
+	sortH := func(key string) string { return strings.ReplaceAll(c07SortHarness, "KEY", key) }
+	names := []string{"VX_C07_C0raw_sorted"}
+	nested := func(key string) string {
+		return "func use(m map[" + key + "]int) []" + key + " { return deriveSort(deriveKeys(m)) }\n\ntype P struct{ X, Y int }\n\nfunc eq(a, b *P) bool { return deriveEqual(a, b) }\n"
+	}
+	hs := []c07History{
+		{ID: "H12", What: "unchanged sources with a nested derive call, second run in place", Raw1: nested("string"), Raw2: nested("string"), Harness: sortH("string"), HarnessNames: names},
+		{ID: "H13", What: "map retyped under an explicit deriveSort(deriveKeys(m))", Raw1: nested("string"), Raw2: nested("int"), Harness: sortH("int"), HarnessNames: names},
+		{ID: "H14", What: "second derive call of the same plugin added",
+			Raw1: "type A struct{ X int }\n\nfunc eqA(a, b *A) bool { return deriveEqualA(a, b) }\n",
+			Raw2: "type A struct{ X int }\n\ntype B struct{ Y string }\n\nfunc eqA(a, b *A) bool { return deriveEqualA(a, b) }\n\nfunc eqB(a, b *B) bool { return deriveEqualB(a, b) }\n"},
+		{ID: "H15", What: "unchanged sources, flat call followed by a nested call of the same plugin",
+			Raw1: "func flat(l []int) []int { return deriveSortA(l) }\n\nfunc use(m map[string]int) []string { return deriveSortB(deriveKeys(m)) }\n",
+			Raw2: "func flat(l []int) []int { return deriveSortA(l) }\n\nfunc use(m map[string]int) []string { return deriveSortB(deriveKeys(m)) }\n", Harness: sortH("string"), HarnessNames: names},
+		{ID: "H16", What: "unchanged sources with a three-level nested derive call",
+			Raw1: "func use(m map[string]int) []string { return deriveSort(deriveUnique(deriveKeys(m))) }\n",
+			Raw2: "func use(m map[string]int) []string { return deriveSort(deriveUnique(deriveKeys(m))) }\n", Harness: sortH("string"), HarnessNames: names},
+	}
+	return hs
 }
 
 func c07Histories(tier string) []c07History {
@@ -42,6 +98,7 @@ func c07Histories(tier string) []c07History {
 		{ID: "H8", What: "truncated remnant (70%) of the previous output", V1: func() (*Ty, []string) { return base(F("X", S)), all }, V2: func() (*Ty, []string) { return base(F("X", S)), all }, Trunc: 70},
 	}
 	hs = append(hs, c07History{ID: "H11", What: "all derive calls removed: the file must be removed", V1: func() (*Ty, []string) { return base(F("X", S)), all }, V2: func() (*Ty, []string) { return base(F("X", S)), nil }})
+	hs = append(hs, c07RawHistories(tier)...)
 	if tier != "quick" {
 		hs = append(hs,
 			c07History{ID: "H9", What: "struct field becomes pointer", V1: func() (*Ty, []string) { return base(F("X", NStruct("Leaf", F("I", I), F("S", S)))), all }, V2: func() (*Ty, []string) {
@@ -152,8 +209,12 @@ func runC07(r *Runner) {
 		rel := "vxfix/c07/" + pkg
 		dir := filepath.Join(r.S.Repo, rel)
 		out[i] = res{h: h, rel: rel}
-		t1, p1 := h.V1()
-		writeFiles(dir, c07Sources(pkg, t1, p1, false, h.ID))
+		if h.Raw1 != "" {
+			writeFiles(dir, c07RawFiles(pkg, h.Raw1, "", nil))
+		} else {
+			t1, p1 := h.V1()
+			writeFiles(dir, c07Sources(pkg, t1, p1, false, h.ID))
+		}
 		if o, code, _ := runCmd(r.S.Repo, goEnv(), 2*time.Minute, r.S.Goderive, "./"+rel); code != 0 {
 			out[i].why = "goderive failed on v1: " + trunc(o, 300)
 			return
@@ -168,8 +229,15 @@ func runC07(r *Runner) {
 		// v2 sources replace v1's, the old derived.gen.go stays
 		os.Remove(filepath.Join(dir, "types.go"))
 		os.Remove(filepath.Join(dir, "calls.go"))
-		t2, p2 := h.V2()
-		writeFiles(dir, c07Sources(pkg, t2, p2, true, h.ID))
+		os.Remove(filepath.Join(dir, "x.go"))
+		var v2files map[string]string
+		if h.Raw2 != "" {
+			v2files = c07RawFiles(pkg, h.Raw2, h.Harness, h.HarnessNames)
+		} else {
+			t2, p2 := h.V2()
+			v2files = c07Sources(pkg, t2, p2, true, h.ID)
+		}
+		writeFiles(dir, v2files)
 		if o, code, _ := runCmd(r.S.Repo, goEnv(), 2*time.Minute, r.S.Goderive, "./"+rel); code != 0 {
 			out[i].why = fmt.Sprintf("goderive exits %d on v2 over the old derived.gen.go: %s", code, trunc(o, 300))
 			return
@@ -177,7 +245,7 @@ func runC07(r *Runner) {
 		// from scratch, in a sibling package directory with the same package name
 		srel := "vxfix/c07s/" + pkg
 		sdir := filepath.Join(r.S.Repo, srel)
-		writeFiles(sdir, c07Sources(pkg, t2, p2, true, h.ID))
+		writeFiles(sdir, v2files)
 		if o, code, _ := runCmd(r.S.Repo, goEnv(), 2*time.Minute, r.S.Goderive, "./"+srel); code != 0 {
 			out[i].why = "goderive failed on v2 from scratch: " + trunc(o, 300)
 			return
@@ -192,11 +260,19 @@ func runC07(r *Runner) {
 	for _, o := range out {
 		rows = append(rows, map[string]interface{}{"history": o.h.ID, "what": o.h.What, "one_run_ok": o.ok, "byte_identical_to_scratch": o.identical, "detail": o.why})
 		if !o.ok {
+			if f := r.Known.matchKey(r.Spec.ID, "history:"+o.h.ID+":fails"); f != nil {
+				r.known(f, fmt.Sprintf("history %s (%s): %s", o.h.ID, o.h.What, o.why))
+				continue
+			}
 			dir := saveReplay(r.S, r.Spec.ID, o.rel, &Model{Harness: "history_" + o.h.ID}, o.h.What+": "+o.why)
 			r.violation(dir, fmt.Sprintf("history %s (%s): %s", o.h.ID, o.h.What, o.why))
 			continue
 		}
 		if !o.identical {
+			if f := r.Known.matchKey(r.Spec.ID, "history:"+o.h.ID+":differs"); f != nil {
+				r.known(f, fmt.Sprintf("history %s (%s): derived.gen.go after one run differs from the from-scratch output", o.h.ID, o.h.What))
+				continue
+			}
 			dir := saveReplay(r.S, r.Spec.ID, o.rel, &Model{Harness: "history_" + o.h.ID}, o.h.What+": derived.gen.go differs from a from-scratch generation")
 			r.violation(dir, fmt.Sprintf("history %s (%s): derived.gen.go after one run differs from the from-scratch output for the same sources", o.h.ID, o.h.What))
 			continue
